@@ -4,6 +4,7 @@
    script, or the timeout), the machine runs to quiescence.  The component tree is a flat list in
    pre-order with parent pointers.  Used by C05, C06, C07.  Definitions only. *)
 From Coq Require Import List Bool Arith.
+From Asphalt Require Import Gen.Gen_compctx.
 Import ListNotations.
 
 Definition key := (nat * nat)%type.      (* (type, name); name 0 is "default" *)
@@ -91,8 +92,14 @@ Definition parent_ready (P : prog) (s : st) (d : nat) : bool :=
   match parent_of P d with None => true | Some p => Nat.eqb (rank (ph s p)) 2 end.
 
 (* the name a resource is published under: `default` is remapped only in start() *)
+Definition eff_name_for (remapped : bool) (cc : comp) (in_start : bool) (name : nat) : nat :=
+  if remapped && in_start && Nat.eqb name 0 then dname cc else name.
+(* whether resources / factories are remapped is read from ComponentContext.add_resource /
+   add_resource_factory on this run (Gen/Gen_compctx.v) *)
 Definition eff_name (cc : comp) (in_start : bool) (name : nat) : nat :=
-  if in_start && Nat.eqb name 0 then dname cc else name.
+  eff_name_for cc_resource_default_remapped_while_starting cc in_start name.
+Definition eff_name_fac (cc : comp) (in_start : bool) (name : nat) : nat :=
+  eff_name_for cc_factory_default_remapped_while_starting cc in_start name.
 
 Definition running (p : phase) : bool :=
   match p with InPrepare _ _ _ | InStart _ _ _ => true | _ => false end.
@@ -114,7 +121,7 @@ Fixpoint run_acts (P : prog) (cc : comp) (c : nat) (in_start : bool) (acts : lis
       | AddTd cb =>
           run_acts P cc c in_start r (St (phs s) (table s) (tds s ++ [cb]) (status_of s) (armed s) (npub s) (gens s))
       | Publish types name fac =>
-          let n := eff_name cc in_start name in
+          let n := if fac then eff_name_fac cc in_start name else eff_name cc in_start name in
           if existsb (fun t => match tfind (t, n) (table s) with Some _ => true | None => false end) types
           then let '(s', o) := abort P s c in_start CConflict in (s', o, None, true)
           else
